@@ -434,6 +434,8 @@ def run(ctx):
             for v in b.succ(x):
                 if v in loop or b.blocks[v].get("cleanup"):
                     continue
+                if not (set(b.return_blocks()) & set(b.reachable(v))):
+                    continue  # the failing side of an assertion: it never returns, so nothing is skipped on it
                 n_exit += 1
                 why = "leaves the loop unconditionally"
                 if t["k"] == "switch":
